@@ -270,4 +270,22 @@ SPECS = {
         partial=["error message texts; the nil-delegate and nil-ticker checks (not part of the numeric domain)"],
         replay_how="each entry: constructor kind + arguments (floats as IEEE-754 bit patterns in decimal); run harness/cmd/pure or call the constructor directly",
     ),
+    "C05": dict(
+        title="Backoff delays stay inside their documented envelope",
+        corr=corr("delay", "C05"),
+        model_note="Pure/Retry.v next_delay models the five NextDelayMillis methods and retry/utils.go (random source = explicit word stream, math.Pow = oracle value)",
+        trusted=COMMON_TRUST,
+        partial=["jitter band: that the two saturated float products are ordered int64 values is a hypothesis of C05_jitter_band_partial (checked per case by the correspondence run, not yet proved with Flocq)",
+                 "exponential 'never below initial' and monotonicity in n depend on float rounding and on math.Pow; only 'value = min(max, saturated product)' and '<= max' are proved",
+                 "attempt numbers < 1 are outside the property"],
+        replay_how="each entry: attempt, Pow oracle bits, random words, backoff in prefix notation (F d | E i max mbits | R min max | J lobits hibits <b> | L limit <b>)",
+    ),
+    "C18": dict(
+        title="Backoff specifications parse totally, exactly and with the documented defaults",
+        corr=corr("spec,parseint", "C18"),
+        model_note="Pure/Spec.v parse_spec/build_spec model retry/backoff.go parseFromSpec, the three parse* helpers and BackoffBuilder.Build over byte strings; strconv.ParseInt modelled exactly, strconv.ParseFloat an oracle",
+        trusted=COMMON_TRUST,
+        partial=["BaseBackoff(base) given explicitly and repeated Build() calls on one builder are exercised by the harness only through fresh builders (builder caching is not in the model)"],
+        replay_how="each entry: spec string as hex after 'x', ParseFloat oracle for the 3rd field, layers (l n | j lobits hibits | w ratebits)",
+    ),
 }
